@@ -607,6 +607,43 @@ fn spawn_async_ao_list_in_task'''),
         ('hook-runs-before-dispatch-too', 'brush-core/src/commands.rs', "        // We still haven't found a command to invoke. We'll need to look for an external command.\n", "        if let Some(post_execute) = self.post_execute {\n            let _ = post_execute(&mut self.shell);\n        }\n"),
         ('unwrap-of-unchecked-builtin', 'brush-core/src/commands.rs', "        if self.shell.options().posix_mode\n            && builtin\n                .as_ref()\n                .is_some_and(|r| !r.disabled && r.special_builtin)\n        {", "        if self.shell.options().posix_mode {"),
     ],
+    'U30': [
+        ('shift-and-additive-levels-swapped', 'brush-parser/src/arithmetic.rs', '''            x:(@) _ "<<" _ y:@ { ast::ArithmeticExpr::BinaryOp(ast::BinaryOperator::ShiftLeft, Box::new(x), Box::new(y)) }
+            x:(@) _ ">>" _ y:@ { ast::ArithmeticExpr::BinaryOp(ast::BinaryOperator::ShiftRight, Box::new(x), Box::new(y)) }
+            --
+            x:(@) _ "+" _ y:@ { ast::ArithmeticExpr::BinaryOp(ast::BinaryOperator::Add, Box::new(x), Box::new(y)) }
+            x:(@) _ "-" _ y:@ { ast::ArithmeticExpr::BinaryOp(ast::BinaryOperator::Subtract, Box::new(x), Box::new(y)) }
+''', '''            x:(@) _ "+" _ y:@ { ast::ArithmeticExpr::BinaryOp(ast::BinaryOperator::Add, Box::new(x), Box::new(y)) }
+            x:(@) _ "-" _ y:@ { ast::ArithmeticExpr::BinaryOp(ast::BinaryOperator::Subtract, Box::new(x), Box::new(y)) }
+            --
+            x:(@) _ "<<" _ y:@ { ast::ArithmeticExpr::BinaryOp(ast::BinaryOperator::ShiftLeft, Box::new(x), Box::new(y)) }
+            x:(@) _ ">>" _ y:@ { ast::ArithmeticExpr::BinaryOp(ast::BinaryOperator::ShiftRight, Box::new(x), Box::new(y)) }
+'''),
+        ('power-left-associative', 'brush-parser/src/arithmetic.rs', 'x:@ _ "**" _ y:(@) {', 'x:(@) _ "**" _ y:@ {'),
+        ('subtract-right-associative', 'brush-parser/src/arithmetic.rs', 'x:(@) _ "-" _ y:@ { ast::ArithmeticExpr::BinaryOp(ast::BinaryOperator::Subtract', 'x:@ _ "-" _ y:(@) { ast::ArithmeticExpr::BinaryOp(ast::BinaryOperator::Subtract'),
+        ('modulo-operands-swapped', 'brush-parser/src/arithmetic.rs', 'ast::ArithmeticExpr::BinaryOp(ast::BinaryOperator::Modulo, Box::new(x), Box::new(y))', 'ast::ArithmeticExpr::BinaryOp(ast::BinaryOperator::Modulo, Box::new(y), Box::new(x))'),
+        ('xor-assign-builds-or-assign', 'brush-parser/src/arithmetic.rs', 'x:lvalue() _ "^=" _ y:(@) { ast::ArithmeticExpr::BinaryAssignment(ast::BinaryOperator::BitwiseXor,', 'x:lvalue() _ "^=" _ y:(@) { ast::ArithmeticExpr::BinaryAssignment(ast::BinaryOperator::BitwiseOr,'),
+        ('ternary-below-assignment', 'brush-parser/src/arithmetic.rs', '''            x:lvalue() _ "=" _ y:(@) { ast::ArithmeticExpr::Assignment(x, Box::new(y)) }
+            --
+            x:@ _ "?" _ y:expression() _ ":" _ z:(@) { ast::ArithmeticExpr::Conditional(Box::new(x), Box::new(y), Box::new(z)) }
+            --
+''', '''            x:lvalue() _ "=" _ y:(@) { ast::ArithmeticExpr::Assignment(x, Box::new(y)) }
+            x:@ _ "?" _ y:expression() _ ":" _ z:(@) { ast::ArithmeticExpr::Conditional(Box::new(x), Box::new(y), Box::new(z)) }
+            --
+'''),
+        ('logical-not-below-power', 'brush-parser/src/arithmetic.rs', '''            x:@ _ "**" _ y:(@) { ast::ArithmeticExpr::BinaryOp(ast::BinaryOperator::Power, Box::new(x), Box::new(y)) }
+            --
+            "!" _ x:(@) { ast::ArithmeticExpr::UnaryOp(ast::UnaryOperator::LogicalNot, Box::new(x)) }
+            "~" _ x:(@) { ast::ArithmeticExpr::UnaryOp(ast::UnaryOperator::BitwiseNot, Box::new(x)) }
+            --
+''', '''            "!" _ x:(@) { ast::ArithmeticExpr::UnaryOp(ast::UnaryOperator::LogicalNot, Box::new(x)) }
+            "~" _ x:(@) { ast::ArithmeticExpr::UnaryOp(ast::UnaryOperator::BitwiseNot, Box::new(x)) }
+            --
+            x:@ _ "**" _ y:(@) { ast::ArithmeticExpr::BinaryOp(ast::BinaryOperator::Power, Box::new(x), Box::new(y)) }
+            --
+'''),
+        ('assignment-right-operand-one-level-up', 'brush-parser/src/arithmetic.rs', 'x:lvalue() _ "=" _ y:(@) { ast::ArithmeticExpr::Assignment', 'x:lvalue() _ "=" _ y:@ { ast::ArithmeticExpr::Assignment'),
+    ],
     'U4s': [
         ('guard-detached-before-the-assignments', 'brush-core/src/interp.rs', "    let mut guard = crate::env::ScopeGuard::new(&mut context.shell, EnvironmentScope::Command);\n", "    let mut guard = crate::env::ScopeGuard::new(&mut context.shell, EnvironmentScope::Command);\n    guard.detach();\n"),
         ('guard-never-detached-scope-popped-twice', 'brush-core/src/interp.rs', "    guard.detach();\n    drop(guard);", "    drop(guard);"),
